@@ -101,8 +101,12 @@ def alma(n, xs, sigma=F(6), offset=F(85, 100)):
 
 # ---------------------------------------------------------------- C05
 def _gl(n, h):
-    d = [F(0)] + [h[i] - h[i - 1] for i in range(1, len(h))]
-    d = d[-n:]
+    # the N most recent changes (the first value of a stream counts as a change of 0)
+    if len(h) > n:
+        w = h[-(n + 1):]
+        d = [w[i] - w[i - 1] for i in range(1, len(w))]
+    else:
+        d = ([F(0)] + [h[i] - h[i - 1] for i in range(1, len(h))])[-n:]
     return sum(x for x in d if x > 0), sum(-x for x in d if x <= 0)
 @per_step
 def rsi(n, h):
@@ -342,3 +346,23 @@ def pfe(n, ma, xs):
         prev = ma_eval(ma, fed)[-1]
         out.append(prev)
     return out
+
+
+# ---------------------------------------------------------------- evaluation at binary64 (long streams)
+class _FloatS:
+    """libm in place of the surrogates"""
+    import math as _m
+    sexp = staticmethod(_m.exp); scos = staticmethod(_m.cos); ssin = staticmethod(_m.sin); sln = staticmethod(_m.log)
+    slog2 = staticmethod(_m.log2); ssqrt = staticmethod(_m.sqrt); stanh = staticmethod(_m.tanh)
+
+def at_float(f, *args):
+    """evaluate a specification of this module with python floats (IEEE binary64, libm) instead of exact rationals and surrogates:
+    the same formulas, used against f64 runs of thousands of steps where exact evaluation is out of reach.  Not exact: compare with a tolerance."""
+    g = globals()
+    oldF, oldS = g["F"], g["S"]
+    g["F"] = lambda a, b=1: float(a) / float(b)
+    g["S"] = _FloatS
+    try:
+        return f(*args)
+    finally:
+        g["F"], g["S"] = oldF, oldS
